@@ -1,6 +1,7 @@
 mod gen;
 mod hist;
 mod lang;
+mod lit;
 mod mk;
 mod reg;
 mod serde_ctx;
@@ -729,6 +730,38 @@ fn replay_panic_cmd(a: &HashMap<String, String>) -> i32 {
     if bad > 0 { 1 } else { 0 }
 }
 
+fn replay_lit_cmd(a: &HashMap<String, String>) -> i32 {
+    let path = a.get("in").expect("--in");
+    let out = a.get("out").cloned().unwrap_or_else(|| "/dev/null".into());
+    quiet_panics();
+    let f = BufReader::new(File::open(path).unwrap());
+    let mut ow = BufWriter::new(File::create(&out).unwrap());
+    let (mut n, mut bad, mut acc) = (0u64, 0u64, 0u64);
+    for line in f.lines() {
+        let line = line.unwrap();
+        if line.trim().is_empty() {
+            continue;
+        }
+        let v: Value = serde_json::from_str(&line).expect("vector json");
+        n += 1;
+        let chars: Vec<u32> = serde_json::from_value(v["chars"].clone()).unwrap();
+        let text = lit::text_of_chars(&chars).unwrap_or_default();
+        let o = lit::observe_lit(v["kind"].as_str().unwrap(), &text);
+        if o["out"] == "ok" {
+            acc += 1;
+        }
+        let diffs = lit::judge(&v, &o);
+        if !diffs.is_empty() {
+            bad += 1;
+            serde_json::to_writer(&mut ow, &json!({"vector": v, "src": format!("{}:{}", v["kind"], text), "observed": o, "diffs": diffs})).unwrap();
+            ow.write_all(b"\n").unwrap();
+        }
+    }
+    ow.flush().unwrap();
+    println!("{}", serde_json::to_string(&json!({"vectors": n, "mismatches": bad, "accepted": acc, "runs": n})).unwrap());
+    if bad > 0 { 1 } else { 0 }
+}
+
 fn replay_types_cmd(a: &HashMap<String, String>) -> i32 {
     let path = a.get("in").expect("--in");
     let out = a.get("out").cloned().unwrap_or_else(|| "/dev/null".into());
@@ -837,6 +870,20 @@ fn main() {
         "replay-hist" => replay_hist_cmd(&a),
         "replay-reg" => replay_reg_cmd(&a),
         "replay-types" => replay_types_cmd(&a),
+        "replay-lit" => replay_lit_cmd(&a),
+        "gen-lit" => {
+            let seed: u64 = a.get("seed").and_then(|s| s.parse().ok()).unwrap_or(1);
+            let n: usize = a.get("n").and_then(|s| s.parse().ok()).unwrap_or(1000);
+            let out = a.get("out").cloned().unwrap_or_else(|| ".".into());
+            let mut r = rng_from(seed);
+            quiet_panics();
+            let evs: Vec<Value> = (0..n).map(|k| lit::gen_lit(&mut r, k as u64)).collect();
+            write_ndjson::<Value>(&format!("{out}/schemes.ndjson"), &[]);
+            write_ndjson::<Value>(&format!("{out}/ctxs.ndjson"), &[]);
+            write_ndjson(&format!("{out}/trace.ndjson"), &evs);
+            println!("{}", serde_json::to_string(&json!({"events": n})).unwrap());
+            0
+        }
         "replay-panic" => replay_panic_cmd(&a),
         "gen-serde" => {
             gen_serde(&a);
